@@ -1163,6 +1163,7 @@ class Interp:
             # defined under a condition / inside an FSM state: elsewhere the local is 0, so it may be read through only
             # where that context holds (checked at every read, hdl.as_expr)
             si.alias_ctx = (tuple(self.cur_states()), tuple(l.canon() for l in self.guard()))
+            si.alias_ctx_lits = tuple(self.guard())
             self.ir.inlined_locals.append((si.name, v.rhs.canon(), str(v.loc if v.loc else self.loc(node))))
             return
         if isinstance(v, Stmt):
@@ -1398,25 +1399,43 @@ def _subst_inlined(ir):
     if not ir.inlined_locals:
         return
 
-    def sub(e):
+    def sub(e, it):
         if not isinstance(e, E):
             return e
         if e.op == 'sig':
             al = getattr(e.args[0], 'alias', None)
-            return sub(al) if al is not None else e
+            if al is None:
+                return e
+            al = sub(al, it)
+            sts, lits = getattr(e.args[0], 'alias_ctx', ((), ()))
+            if sts or lits:
+                # defined under a condition / inside a state and read (textually earlier) outside it: there the local is its
+                # definition where the context holds and 0 elsewhere
+                cur_s = tuple(getattr(it, 'states', None) or ())
+                cur_l = {l.canon() for l in it.guard}
+                if cur_s[:len(sts)] != sts or not set(lits) <= cur_l:
+                    ll = getattr(e.args[0], 'alias_ctx_lits', ())
+                    if e.args[0].w != 1 or any(l.kind != 'cond' or not isinstance(l.e, E) for l in ll):
+                        raise AnalysisError('construct not understood: the combinational local %s, defined under a condition, is '
+                                            'read outside that condition' % e.args[0].name)
+                    parts = [E('ongoing', (f_, s_), w=1) for f_, s_ in sts]
+                    parts += [l.e if l.pos else E('~', (l.e,), w=1) for l in ll]
+                    parts.append(al)
+                    return parts[0] if len(parts) == 1 else E('&', tuple(parts), w=1)
+            return al
         if not any(isinstance(a, E) for a in e.args):
             return e
-        na = tuple(sub(a) for a in e.args)
+        na = tuple(sub(a, it) for a in e.args)
         if all(x is y for x, y in zip(na, e.args)):
             return e
         return E(e.op, na, w=e.w, val=e.val, label=e.label)
     items = list(ir.assigns) + [ed for f in ir.fsms for ed in f.edges]
     for it in items:
         if isinstance(getattr(it, 'rhs', None), E):
-            it.rhs = sub(it.rhs)
+            it.rhs = sub(it.rhs, it)
         ng = []
         for l in it.guard:
-            e2 = sub(l.e)
+            e2 = sub(l.e, it)
             if e2 is l.e:
                 ng.append(l)
             else:
@@ -1437,6 +1456,7 @@ def _ongoing_to_state(ir):
     def ong(l):
         e = l.e
         return isinstance(e, E) and e.op == 'ongoing' and l.pos and e.args[0] in fsm_ids and e.args[1] in fsm_ids[e.args[0]].states
+    repl = {}
     for a in ir.assigns:
         if a.state is not None or a.rhs is None:
             continue
@@ -1446,10 +1466,10 @@ def _ongoing_to_state(ir):
             a.state = (hit[0].e.args[0], hit[0].e.args[1])
             a.states = (a.state,)
             continue
-        if hit or a.domain != 'comb' or not isinstance(a.rhs, E) or not isinstance(a.lhs, E) or a.lhs.op != 'sig':
+        if hit or not isinstance(a.rhs, E) or not isinstance(a.lhs, E) or a.lhs.op != 'sig':
             continue
         r = a.rhs
-        if r.op == 'ongoing' or (r.op == '&' and any(isinstance(x, E) and x.op == 'ongoing' for x in r.args)):
+        if a.domain == 'comb' and (r.op == 'ongoing' or (r.op == '&' and any(isinstance(x, E) and x.op == 'ongoing' for x in r.args))):
             lits = literals(r, True)
             hit = [l for l in lits if ong(l)]
             tgt = a.lhs.args[0].name
@@ -1459,6 +1479,137 @@ def _ongoing_to_state(ir):
                 a.rhs = E('const', val=1, w=1)
                 a.state = (hit[0].e.args[0], hit[0].e.args[1])
                 a.states = (a.state,)
+                continue
+        # general case: an unguarded one-bit flag that is a boolean function of ongoing() atoms of one FSM (and other
+        # conditions), the flag having no other driver: one in-state statement per state in which it is not constant 0
+        ongs = [n for n in r.walk() if n.op == 'ongoing']
+        if not ongs or a.guard or r.w != 1 or any(not ong(_L(n)) for n in ongs) or len({n.args[0] for n in ongs}) != 1:
+            continue
+        tgt = a.lhs.args[0].name
+        if sum(1 for b in ir.assigns if tgt in b.lhs_sigs()) != 1:
+            continue
+        fid = ongs[0].args[0]
+        new = []
+        for st in fsm_ids[fid].states:
+            v = _subst_ongoing(r, st)
+            if v is None:
+                new = None
+                break
+            if v.op == 'const':
+                if v.val:
+                    new.append((st, ()))
+                continue
+            new.append((st, tuple(literals(v, True))))
+        if new is None:
+            continue
+        import copy as _copy
+        if a.domain != 'comb':
+            # a register written in every cycle: 0 unless one of the in-state statements below overrides it
+            b = _copy.copy(a)
+            b.rhs = E('const', val=0, w=1)
+            repl.setdefault(id(a), []).append(b)
+        for st, guard in new:
+            b = _copy.copy(a)
+            b.guard = guard
+            if a.domain != 'comb':
+                b.order = a.order + 0.5        # after the default, before the next statement
+            b.rhs = E('const', val=1, w=1)
+            b.state = (fid, st)
+            b.states = (b.state,)
+            repl.setdefault(id(a), []).append(b)
+        repl.setdefault(id(a), [])
+    if repl:
+        out = []
+        for a in ir.assigns:
+            out += repl.get(id(a), [a])
+        ir.assigns[:] = out
+
+
+class _L:
+    def __init__(self, e):
+        self.e, self.pos = e, True
+
+
+def _subst_ongoing(e, st):
+    """e with every ongoing(fsm:X) replaced by the constant (X == st), constants folded through one-bit & | ~; None when a
+    constant would end up inside an operator that is not folded here."""
+    if not isinstance(e, E):
+        return None
+    if e.op == 'ongoing':
+        return E('const', val=int(e.args[1] == st), w=1)
+    if not any(n.op == 'ongoing' for n in e.walk()):
+        return e
+    if e.op in ('&', '|') and e.w == 1:
+        args = []
+        for x in e.args:
+            v = _subst_ongoing(x, st)
+            if v is None:
+                return None
+            if v.op == 'const':
+                if bool(v.val) == (e.op == '|'):
+                    return E('const', val=int(e.op == '|'), w=1)
+                continue
+            args.append(v)
+        if not args:
+            return E('const', val=int(e.op == '&'), w=1)
+        return args[0] if len(args) == 1 else E(e.op, tuple(args), w=1)
+    if e.op == '~' and e.w == 1:
+        v = _subst_ongoing(e.args[0], st)
+        if v is None:
+            return None
+        if v.op == 'const':
+            return E('const', val=int(not v.val), w=1)
+        return E('~', (v,), w=1)
+    return None
+
+
+def _simplify_guard(lits):
+    """Unit propagation inside one conjunction: with `~a` present the literal `(a | b)` is `b`, with `a` present it is
+    implied and dropped; a repeated literal is kept once.  (`If(clear | advance): r.eq(Mux(clear, 0, nxt))` and
+    `If(clear): r.eq(0)` / `Elif(advance): r.eq(nxt)` thus give the same two guarded assignments.)"""
+    from .ir import _is_bool
+    lits = list(lits)
+    for _ in range(4):
+        have = {l.canon() for l in lits if not (l.pos and isinstance(l.e, E) and l.e.op == '|')}
+        out, seen, changed = [], set(), False
+        for l in lits:
+            e = l.e
+            if l.pos and l.kind == 'cond' and isinstance(e, E) and e.op == '|' and all(_is_bool(a) for a in e.args):
+                keep, implied = [], False
+                for d in e.args:
+                    dl = literals(d, True)
+                    if dl and all(x.canon() in have for x in dl):
+                        implied = True
+                        break
+                    if any(x.neg().canon() in have for x in dl):
+                        continue                       # this alternative is excluded by the rest of the conjunction
+                    keep.append(d)
+                if implied:
+                    changed = True
+                    continue
+                if keep and len(keep) < len(e.args):
+                    changed = True
+                    new = keep[0] if len(keep) == 1 else E('|', tuple(keep), w=e.w)
+                    for x in literals(new, True):
+                        if x.canon() not in seen:
+                            seen.add(x.canon())
+                            out.append(x)
+                    continue
+            if l.canon() in seen:
+                changed = True
+                continue
+            seen.add(l.canon())
+            out.append(l)
+        lits = out
+        if not changed:
+            break
+    return tuple(lits)
+
+
+def _unit_propagate(ir):
+    for it in list(ir.assigns) + [ed for f in ir.fsms for ed in f.edges]:
+        if any(l.pos and isinstance(l.e, E) and l.e.op == '|' for l in it.guard) or len({l.canon() for l in it.guard}) != len(it.guard):
+            it.guard = _simplify_guard(it.guard)
 
 
 _EQSITES = {}
@@ -1536,6 +1687,7 @@ def extract(index, cls, kwargs=None, method='elaborate', collections=True, platf
     ir.result = ip.call_func(fr, [plat] if len(el[1].args.args) > 1 else [], {}, None)
     _subst_inlined(ir)
     _ongoing_to_state(ir)
+    _unit_propagate(ir)
     for si in ip._siglist:
         if getattr(si, 'alias', None) is not None:
             continue
